@@ -434,3 +434,35 @@ func VH_c07_collision() {
 		vReach("kept_incoming")
 	}
 }
+
+// Established, timing: a KEEPALIVE (or UPDATE) arriving d seconds into the session restarts the hold
+// timer, so with silence afterwards the session ends with Hold Timer Expired exactly hold seconds
+// after that message; meanwhile the speaker has sent its own KEEPALIVEs every hold/3 seconds.
+func VH_c07_hold_restart() {
+	in, _, _, _ := c07event(c07keepalive)
+	if vBool("update_instead") {
+		in = c07wire(vUpdate4(vPrefix4(10, 1, 0, 0, 16), false, []uint32{65001}, vAddr4(10, 0, 0, 2)))
+	}
+	f, h, conn := c07fsm(bgp.BGP_FSM_ESTABLISHED, in, true)
+	late := vInt("arrives_after", 1, 2)
+	conn.delay = time.Duration(late) * time.Second
+	const hold = 3
+	conf := f.pConf.ReadCopy()
+	conf.Timers.State.NegotiatedHoldTime, conf.Timers.State.KeepaliveInterval = hold, 1
+	f.pConf.Update(&conf)
+	f.familyMap.Store(map[bgp.Family]bgp.BGPAddPathMode{bgp.RF_IPv4_UC: bgp.BGP_ADD_PATH_NONE})
+	f.isEBGP = true
+	next, reason := h.established(context.Background())
+	code, sub, notif, keepalive, _ := conn.written()
+	vAssert(next == bgp.BGP_FSM_IDLE && reason.Type == fsmHoldTimerExpired && notif && code == bgp.BGP_ERROR_HOLD_TIMER_EXPIRED && sub == 0, "silence after a message does not end the session with Hold Timer Expired")
+	vAssert(vElapsedSec() == uint64(late+hold), "a received KEEPALIVE/UPDATE does not restart the hold timer (expiry is not hold seconds after the last message)")
+	vAssert(keepalive, "no KEEPALIVE was sent during the keepalive intervals of an Established session")
+	sent := 0
+	for b := conn.out; len(b) >= 19; b = b[int(b[16])<<8|int(b[17]):] {
+		if b[18] == bgp.BGP_MSG_KEEPALIVE {
+			sent++
+		}
+	}
+	vAssert(sent >= late+hold-1, "fewer KEEPALIVEs were sent than keepalive intervals elapsed")
+	vReach("end")
+}
